@@ -233,3 +233,13 @@ func (rm *RegistrationManager) VerifDumpAges(now time.Time) string {
 	sort.Strings(lines)
 	return strings.Join(lines, "\n")
 }
+
+// VerifHandleConnectingTpReg is what the ingest pipeline does with a freshly validated registration of a connecting
+// transport (it starts the goroutine that dials the client).
+func (rm *RegistrationManager) VerifHandleConnectingTpReg(reg *DecoyRegistration) {
+	handleConnectingTpReg(rm, reg, rm.Logger)
+}
+
+// VerifSetConnectingStats installs the statistics sink of the connecting transports (the application passes its
+// connection manager).
+func (rm *RegistrationManager) VerifSetConnectingStats(s ConnectingTpStats) { rm.connectingStats = s }
